@@ -367,3 +367,94 @@ func scalarClassification(ctx *core.Ctx, cc *CC, rule string) {
 			"the function classifies a type with IsPrimitive() alone; IsPrimitive() is false for an enum, so an enum field falls on the struct/container side of the decision (e.g. an optional enum without default stops being a presence pointer: the member whose value is 0 is never written and reads back as unset)")
 	}
 }
+
+// generatorCaches — C02.R12 (also run as C19.R8). A ProgramGenerator is
+// reused for the root file and, with -r, for every include: only its Frugal
+// field is switched (SetFrugal). A map field of a generator that memoises
+// what the *current* program resolves (a value obtained from a method of
+// parser.Frugal: UnderlyingType, IsEnum, FindStruct …) answers with the root
+// file's resolution while an include is generated — unless the generator
+// drops the cache where the program is switched. Keyed by type name, two files
+// that declare `Stamp` differently get each other's wire type.
+func generatorCaches(ctx *core.Ctx, cc *CC, rule string) {
+	n := 0
+	for _, fn := range cc.Fns {
+		if fn.Pkg == nil || !strings.Contains(fn.Pkg.Pkg.Path(), "/compiler/generator") {
+			continue
+		}
+		ssax.Instrs(fn, func(in ssa.Instruction) {
+			mu, ok := in.(*ssa.MapUpdate)
+			if !ok {
+				return
+			}
+			// a map field of a generator object
+			ld, ok := ssax.Strip(mu.Map).(*ssa.UnOp)
+			if !ok {
+				return
+			}
+			fa, ok := ld.X.(*ssa.FieldAddr)
+			if !ok {
+				return
+			}
+			pt, ok := fa.X.Type().Underlying().(*types.Pointer)
+			if !ok {
+				return
+			}
+			owner, ok := pt.Elem().(*types.Named)
+			if !ok || owner.Obj().Pkg() == nil || !strings.Contains(owner.Obj().Pkg().Path(), "/compiler/generator") {
+				return
+			}
+			field := owner.Underlying().(*types.Struct).Field(fa.Field).Name()
+			// the stored value comes from the current program's resolution
+			fromProgram := false
+			var walk func(v ssa.Value, d int)
+			seen := map[ssa.Value]bool{}
+			walk = func(v ssa.Value, d int) {
+				v = ssax.Strip(v)
+				if v == nil || seen[v] || d > 6 {
+					return
+				}
+				seen[v] = true
+				if c, isC := v.(*ssa.Call); isC {
+					if g := c.Call.StaticCallee(); g != nil && g.Signature.Recv() != nil && ssax.TypeNamed(g.Signature.Recv().Type(), "parser", "Frugal") {
+						fromProgram = true
+						return
+					}
+				}
+				if x, isI := v.(ssa.Instruction); isI {
+					for _, op := range x.Operands(nil) {
+						if *op != nil {
+							walk(*op, d+1)
+						}
+					}
+				}
+			}
+			walk(mu.Value, 0)
+			if !fromProgram {
+				return
+			}
+			n++
+			// dropped where the program is switched: a SetFrugal of this generator type re-makes the map
+			reset := false
+			for _, g := range cc.Fns {
+				if g.Name() != "SetFrugal" || g.Signature.Recv() == nil || !sameNamed(g.Signature.Recv().Type(), types.NewPointer(owner)) {
+					continue
+				}
+				ssax.Instrs(g, func(x ssa.Instruction) {
+					if st, isSt := x.(*ssa.Store); isSt {
+						if f2, isFA := st.Addr.(*ssa.FieldAddr); isFA && f2.Field == fa.Field {
+							if _, isMk := ssax.Strip(st.Val).(*ssa.MakeMap); isMk {
+								reset = true
+							}
+						}
+					}
+				})
+			}
+			ctx.Check(reset, rule, QName(fn)+" › cache "+owner.Obj().Name()+"."+field+" is per program", cc.IPos(in), "re-made in SetFrugal",
+				"the generator memoises what the current program resolves in "+owner.Obj().Name()+"."+field+", but the same generator object generates the root file and (with -r) every include, switching only its Frugal: the cached answer of one file is used for another (two files declaring a type of the same name with different underlying types get each other's wire type, and an include's output differs between a recursive and a stand-alone run)")
+		})
+	}
+	if n == 0 {
+		ctx.Discharge(rule, "generators › no program-dependent cache", "", "no map field of a generator stores what a parser.Frugal method returned")
+	}
+}
